@@ -234,7 +234,28 @@ def r3_random_tiebreak(ctx):
     ctx.check(astx.is_const(f.param_default(tb), "random"), f, f.node, "tiebreak_set defaults to the random rule", "", "default tiebreak changed")
 
 
+def r4_stv_elimination_tie(ctx):
+    """A last-place tie in STV is broken by the initial first-place votes "and only then at random": the random part lives
+    in tiebreak_set (C17.R3, C10.R4), so the elimination branch must hand the tied set to tiebreak_set with the
+    'first_place' rule.  Who-must-call rule over STV._run_step and everything else defined in its module (a helper
+    the step delegates to counts); an ordering computed in place (sorted by the stored tallies) has no random
+    fallback and leaves the choice among still-tied candidates to set iteration order."""
+    prog = ctx.prog
+    f = prog.find_func("STV._run_step")
+    tb = prog.find_func("tiebreak_set")
+    mod_funcs = [g for g in prog.functions.values() if g.module is f.module]
+    hits = []
+    for g in mod_funcs:
+        for c in astx.calls_in(g.node, "tiebreak_set"):
+            b = astx.bind_args(c, tb.params)
+            if astx.is_const(b.get("tiebreak"), "first_place"):
+                hits.append((g, c))
+    ctx.check(bool(hits), f, hits[0][1] if hits else f.node, "STV: a last-place tie is handed to tiebreak_set(..., tiebreak='first_place') (random fallback among the still tied)",
+              astx.u(hits[0][1])[:100] if hits else "", "no call of tiebreak_set with the 'first_place' rule in the STV module: an elimination tie has no random fallback")
+
+
 RULES = [
+    ("C17.R4", r4_stv_elimination_tie, 1, "STV elimination ties go through tiebreak_set with the 'first_place' rule (the only place with a random fallback)"),
     ("C17.R1", r1_random_dictator, 3, "RandomDictator: weighted ballot draw aligned with weights; first position wins; random tiebreak on ties"),
     ("C17.R2", r2_boosted, 10, "BoostedRandomDictator: mixing threshold 1/(c-1), squares law pipeline, alignment, dictator branch"),
     ("C17.R3", r3_random_tiebreak, 2, "random tiebreak is a uniform permutation of exactly the tied set"),
@@ -248,6 +269,7 @@ FAULTS = [
     ("RD weights reversed", [(RD, "        weights = [b.weight for b in ballots]", "        weights = [b.weight for b in ballots][::-1]")], "C17.R1"),
     ("RD last place wins", [(RD, "            tiebroken_ranking = (random_ballot.ranking[0],)", "            tiebroken_ranking = (random_ballot.ranking[-1],)")], "C17.R1"),
     ("RD tie favours last of resolution", [(RD, "        winning_cand = list(tiebroken_ranking[0])[0]", "        winning_cand = list(tiebroken_ranking[-1])[0]")], "C17.R1"),
+    ("STV elimination tie ordered in place, no tiebreak_set", [("src/votekit/elections/election_types/ranking/stv.py", "                tiebroken_ranking = tiebreak_set(\n                    lowest_fpv_cands, self.get_profile(0), tiebreak=\"first_place\"\n                )", "                initial = self.election_states[0].scores\n                tiebroken_ranking = tuple(frozenset({c}) for c in sorted(lowest_fpv_cands, key=lambda c: initial[c], reverse=True))")], "C17.R4"),
     ("BRD threshold 1/c", [(BRD, "        elif u <= 1 / (len(remaining_cands) - 1):", "        elif u <= 1 / len(remaining_cands):")], "C17.R2"),
     ("BRD threshold inverted", [(BRD, "        elif u <= 1 / (len(remaining_cands) - 1):", "        elif u > 1 / (len(remaining_cands) - 1):")], "C17.R2"),
     ("BRD cubes", [(BRD, "            p = np.power(p, 2)", "            p = np.power(p, 3)")], "C17.R2"),
